@@ -88,10 +88,14 @@ example : parse 0 (render [nlJob [97, 58, 10]]) = .error .panicBounds := by deci
 /-! ## 2. Never ahead of commits: the snapshot under the job locks -/
 
 open FileD.CommitSnap in
-/-- **never ahead**: for every interleaving of commits, truncations, new jobs and the per-job
-    critical sections of saves, every finished snapshot buffer holds, per source, a value that
-    job's offsets map had at or before the moment the buffer was complete (`hist` is the ghost
-    log of all values; `n` its length when the buffer was handed to `write`). -/
+/-- **never ahead, one moment per source**: for every interleaving of commits, truncations, new
+    jobs and the per-job critical sections of saves, every finished snapshot buffer holds, per
+    source, an entry `e = (source, its WHOLE stream table)` that is a value the job's offsets map
+    had — all streams together, at one single moment — at or before the moment the buffer was
+    complete (`hist` is the ghost log of every value any job's table ever had; `n` its length when
+    the buffer was handed to `write`). This is what `saveVisit` = ONE `job.mu` critical section that
+    reads the job's table and formats all its stream lines buys; a save that formats outside the lock
+    is not an instance of the model (source fact in checks/p_C07.py, `c07.conc` oracle). -/
 theorem never_ahead (ops : List CommitSnap.Op) (s : CommitSnap.St)
     (hr : CommitSnap.run CommitSnap.init ops = some s) :
     ∀ sn ∈ s.snaps, sn.2 ≤ s.hist.length ∧ ∀ e ∈ sn.1, e ∈ s.hist.take sn.2 :=
@@ -105,6 +109,14 @@ example :
       [.addJob 1, .addJob 2, .commit 1 [115] 10, .saveBegin [1, 2], .saveVisit,
        .commit 2 [115] 5, .commit 1 [115] 20, .saveVisit, .saveEnd]).map (·.snaps)
     = some [([(1, [([115], 10)]), (2, [([115], 5)])], 5)] := by rfl
+
+/-- the statement excludes tables that mix moments: a↦1,b↦1 then a↦2 then b↦2 — the table
+    (a↦1, b↦2) never existed, so by `never_ahead` no snapshot can hold it -/
+example :
+    (CommitSnap.run CommitSnap.init
+      [.addJob 1, .commit 1 [97] 1, .commit 1 [98] 1, .commit 1 [97] 2, .commit 1 [98] 2]).map
+      (fun s => (s.hist.contains (1, [([97], 2), ([98], 1)]), s.hist.contains (1, [([97], 1), ([98], 2)])))
+    = some (true, false) := by rfl
 
 /-! ## 3. The save protocol: every failure pattern, every crash point -/
 
